@@ -4,6 +4,7 @@ import (
 	"errors"
 	"fmt"
 	"math"
+	"math/big"
 	"regexp"
 	"strconv"
 	"strings"
@@ -44,6 +45,13 @@ func parseNumber(value string) float64 {
 
 	number, err := strconv.ParseInt(value, 0, 64)
 	if err != nil {
+		if errors.Is(err, strconv.ErrRange) {
+			// A hexadecimal integer too large for int64: convert it exactly and round once.
+			if integer, ok := new(big.Int).SetString(value, 0); ok {
+				number, _ := new(big.Float).SetInt(integer).Float64()
+				return number
+			}
+		}
 		return math.NaN()
 	}
 	return float64(number)
